@@ -9,8 +9,9 @@ for fn in sorted(glob.glob(os.path.join(HERE, "tools", "manifest_entries", "C*.j
     TABLE[os.path.basename(fn)[:-5]] = json.load(open(fn))
 props = [json.loads(l)["id"] for l in open(os.path.join(HERE, "properties.jsonl"))]
 checks, na = [], []
+READY = set(open(os.path.join(HERE, "tools", "manifest_entries", "READY")).read().split())
 for pid in props:
-    t = TABLE.get(pid)
+    t = TABLE.get(pid) if pid in READY else None
     modfile = os.path.join(HERE, "mcverif", "checks", pid.lower() + ".py")
     if not t or not t.get("claimed") or not os.path.exists(modfile):
         na.append({"property_id": pid, "reason": (t or {}).get("reason", "no check registered yet in this revision of /verif (work in progress; see DESIGN.md section 4 for the planned bounded-exhaustive check)")})
